@@ -87,7 +87,7 @@ func baseProp(st sreg.Strat) engine.AnyProp {
 				c.Plain = true
 			}
 			w := st.Warm(st.BuildLeaf(c.Plain, c.Cfg))
-			c.Bars = gen.GenBars(t, genN(t, w))
+			c.Bars = gen.GenBarsAny(t, genN(t, w))
 			return c
 		},
 		Check: func(c Case) engine.Outcome {
@@ -140,7 +140,7 @@ func treeProp() engine.AnyProp {
 				tr = sreg.Tree{Op: rapid.SampledFrom([]string{"inverse", "noloss", "stoploss"}).Draw(t, "wrap"), Pct: 0.125, Kids: []sreg.Tree{tr}}
 			}
 			w := tr.MaxWarm()
-			return TreeCase{Tree: tr, Bars: gen.GenBars(t, genN(t, w))}
+			return TreeCase{Tree: tr, Bars: gen.GenBarsAny(t, genN(t, w))}
 		},
 		Check: func(c TreeCase) engine.Outcome {
 			var o engine.Outcome
